@@ -66,7 +66,7 @@ pub enum Ident {
 
 pub const NAMED: [&str; 2] = ["alpha", "beta"];
 /// groups created in every data history: (numeric id, name). Ids deliberately collide with consumer ids.
-pub const GROUPS: [(u32, &str); 3] = [(1, "gone"), (2, "gtwo"), (3, "alpha")];
+pub const GROUPS: [(u32, &str); 3] = [(1, "vgroup-one"), (2, "vgroup-two"), (3, "alpha")];
 
 impl Ident {
     pub fn consumer(&self) -> Consumer {
@@ -148,6 +148,8 @@ pub enum Op {
     CreatePartitions { n: u32 },
     DeletePartitions { n: u32 },
     DeleteGroup { idx: u8 },
+    RestartKey { off: bool },
+    CorruptCiphertext,
     Checkpoint,
 }
 
@@ -178,6 +180,8 @@ impl Op {
             Op::CreatePartitions { .. } => "create_partitions",
             Op::DeletePartitions { .. } => "delete_partitions",
             Op::DeleteGroup { .. } => "delete_group",
+            Op::RestartKey { .. } => "restart_wrong_key",
+            Op::CorruptCiphertext => "corrupt_ciphertext",
             Op::Checkpoint => "checkpoint",
         }
     }
@@ -261,6 +265,11 @@ pub struct World {
     pub ts_monotone: bool,
     pub last_ts: u64,
     pub retention_active: bool,
+    /// also compare stream-level figures and server statistics at checkpoints (C16)
+    pub deep: bool,
+    pub stream_name: String,
+    pub topic_name: String,
+    pub len_at_restart: BTreeMap<u32, u64>,
 }
 
 pub fn viol(property: &str, clause: &str, trigger: &str, witness: Value) -> Stop {
@@ -317,6 +326,10 @@ impl World {
             ts_monotone: true,
             last_ts: 0,
             retention_active: false,
+            deep: false,
+            stream_name: "s1".into(),
+            topic_name: "t1".into(),
+            len_at_restart: BTreeMap::new(),
         }
     }
 
@@ -332,7 +345,7 @@ impl World {
     pub fn part(&self, id: u32) -> Option<&PartM> {
         self.parts.iter().find(|p| p.id == id)
     }
-    fn part_mut(&mut self, id: u32) -> &mut PartM {
+    pub fn part_mut(&mut self, id: u32) -> &mut PartM {
         self.parts.iter_mut().find(|p| p.id == id).unwrap()
     }
 
@@ -382,14 +395,14 @@ impl World {
     pub async fn boot(&mut self) -> R<()> {
         self.start_instance().await?;
         let c = self.c();
-        timed("create_stream", c.create_stream("s1", Some(1)))
+        timed("create_stream", c.create_stream(&self.stream_name, Some(1)))
             .await?
             .map_err(|e| Stop::Inconclusive(format!("create_stream: {e}")))?;
         let exp = self.expiry(self.tcfg.expiry_us);
         let ms = self.maxsize(self.tcfg.max_size);
         timed(
             "create_topic",
-            c.create_topic(&self.stream, "t1", self.tcfg.partitions, CompressionAlgorithm::None, None, Some(1), exp, ms),
+            c.create_topic(&self.stream, &self.topic_name, self.tcfg.partitions, CompressionAlgorithm::None, None, Some(1), exp, ms),
         )
         .await?
         .map_err(|e| Stop::Inconclusive(format!("create_topic: {e}")))?;
@@ -401,7 +414,7 @@ impl World {
         Ok(())
     }
 
-    async fn start_instance(&mut self) -> R<()> {
+    pub async fn start_instance(&mut self) -> R<()> {
         let started = timed("start", ServerInstance::start(&self.dir, &self.cfg, self.cache)).await?;
         let inst = match started {
             Ok(i) => i,
@@ -436,7 +449,7 @@ impl World {
     fn make_message(&self, seq: u64, idx: u32, sz: u32, headers: bool, id_override: Option<u128>) -> (Message, Rec) {
         let mut r = Rng::new(self.hist ^ seq.wrapping_mul(0x1F35) ^ ((idx as u64) << 40));
         let tag = format!("{:x}/{}/{}|", self.hist & 0xffff_ffff, seq, idx);
-        let mut payload = tag.into_bytes();
+        let mut payload = if sz < 13 { vec![] } else { tag.into_bytes() };
         let extra = (sz as usize).saturating_sub(payload.len()).max(1);
         payload.extend_from_slice(&r.bytes(extra));
         let id = id_override.unwrap_or(((self.hist as u128) << 64) | ((seq as u128) << 20) | (idx as u128 + 1));
@@ -478,7 +491,7 @@ impl World {
 
     /// Compares one returned message with the model record at its claimed offset.
     /// C01 clause `offset-tag`, C02 clause `fields`.
-    fn check_message(&mut self, part: u32, m: &PolledMessage, ctx: &Value) -> R<()> {
+    pub fn check_message(&mut self, part: u32, m: &PolledMessage, ctx: &Value) -> R<()> {
         self.eval("C01:offset-tag");
         let hist = self.hist;
         let p = self.part_mut(part);
@@ -654,6 +667,81 @@ impl World {
             let w = json!({"why": why, "topic_messages_count": t.messages_count, "sum_partitions": total, "topic_size": t.size.as_bytes_u64(), "sum_sizes": psum});
             return Err(viol("C16", "topic-sum", why, self.witness(w)));
         }
+        if self.cfg.encryption {
+            self.scan_files_for_cleartext(why)?;
+        }
+        if self.deep {
+            // re-read the topic: sizes may have moved between the first read and now only through our own ops (none)
+            let t = self.get_topic().await?;
+            let sd = match timed("get_stream", self.c().get_stream(&self.stream)).await? {
+                Ok(Some(s)) => s,
+                other => return Err(Stop::Inconclusive(format!("get_stream: {other:?}"))),
+            };
+            self.eval("C16:stream-sum");
+            if sd.messages_count != t.messages_count || sd.size != t.size || sd.topics_count != 1 {
+                let w = json!({"why": why, "stream": {"messages": sd.messages_count, "size": sd.size.as_bytes_u64(), "topics": sd.topics_count},
+                    "topic": {"messages": t.messages_count, "size": t.size.as_bytes_u64()}});
+                return Err(viol("C16", "stream-sum", why, self.witness(w)));
+            }
+            let st = match timed("get_stats", self.c().get_stats()).await? {
+                Ok(s) => s,
+                Err(e) => return Err(Stop::Inconclusive(format!("get_stats: {e}"))),
+            };
+            self.eval("C16:stats");
+            let segs: u32 = t.partitions.iter().map(|p| p.segments_count).sum();
+            let groups = self.groups_alive.iter().filter(|g| **g).count() as u32;
+            let ok = st.streams_count == 1
+                && st.topics_count == 1
+                && st.partitions_count == t.partitions_count
+                && st.segments_count == segs
+                && st.messages_count == t.messages_count
+                && st.messages_size_bytes == t.size
+                && st.consumer_groups_count == groups;
+            if !ok {
+                let w = json!({"why": why, "stats": {"streams": st.streams_count, "topics": st.topics_count, "partitions": st.partitions_count, "segments": st.segments_count,
+                    "messages": st.messages_count, "size": st.messages_size_bytes.as_bytes_u64(), "groups": st.consumer_groups_count},
+                    "expected": {"streams": 1, "topics": 1, "partitions": t.partitions_count, "segments": segs, "messages": t.messages_count, "size": t.size.as_bytes_u64(), "groups": groups}});
+                return Err(viol("C16", "stats", why, self.witness(w)));
+            }
+        }
+        Ok(())
+    }
+
+    /// C19 `no-cleartext`: no payload marker and no journalled name may occur in any file under the data directory.
+    pub fn scan_files_for_cleartext(&mut self, why: &str) -> R<()> {
+        let mut markers: Vec<Vec<u8>> = vec![self.stream_name.clone().into_bytes(), self.topic_name.clone().into_bytes()];
+        for g in GROUPS.iter() {
+            if g.1.len() >= 8 {
+                markers.push(g.1.as_bytes().to_vec());
+            }
+        }
+        for p in &self.parts {
+            for r in &p.msgs {
+                if r.payload.len() >= 13 {
+                    let n = r.payload.iter().position(|c| *c == b'|').unwrap_or(12) + 1;
+                    // the tag plus a few of the random bytes that follow it
+                    markers.push(r.payload[..(n + 6).min(r.payload.len())].to_vec());
+                }
+            }
+        }
+        markers.retain(|m| m.len() >= 8);
+        let mut files = vec![];
+        collect_files(&self.dir, &mut files);
+        let mut bytes_scanned = 0u64;
+        for f in &files {
+            let Ok(data) = std::fs::read(f) else { continue };
+            bytes_scanned += data.len() as u64;
+            for m in &markers {
+                self.eval("C19:no-cleartext");
+                if find(&data, m).is_some() {
+                    let w = json!({"why": why, "file": f.to_string_lossy(), "marker": String::from_utf8_lossy(m)});
+                    let kind = if f.to_string_lossy().contains("/state/") { "journal" } else { "data-file" };
+                    return Err(viol("C19", "no-cleartext", kind, self.witness(w)));
+                }
+            }
+        }
+        *self.ev.entry("cleartext_scan_files".into()).or_insert(0) += files.len() as u64;
+        *self.ev.entry("cleartext_scan_bytes".into()).or_insert(0) += bytes_scanned;
         Ok(())
     }
 
@@ -661,6 +749,10 @@ impl World {
     // operations
 
     pub async fn exec(&mut self, op: Op) -> R<()> {
+        if std::env::var("VERIF_TRACE").is_ok() {
+            let st: Vec<String> = self.parts.iter().map(|p| format!("p{}:len={},e={},offs={:?}", p.id, p.msgs.len(), p.earliest, p.offs)).collect();
+            eprintln!("[trace] #{} {:?}   model: {}", self.ops.len(), op, st.join(" "));
+        }
         self.ops.push(op.clone());
         *self.opsk.entry(op.kind().to_string()).or_insert(0) += 1;
         let r = self.exec_inner(op).await;
@@ -712,7 +804,7 @@ impl World {
                 Ok(())
             }
             Op::Maintain | Op::UpdateExpiry { .. } | Op::UpdateMaxSize { .. } | Op::CreatePartitions { .. }
-            | Op::DeletePartitions { .. } | Op::DeleteGroup { .. } => crate::world_ext::exec_ext(self, op).await,
+            | Op::DeletePartitions { .. } | Op::DeleteGroup { .. } | Op::RestartKey { .. } | Op::CorruptCiphertext => crate::world_ext::exec_ext(self, op).await,
         }
     }
 
@@ -779,6 +871,9 @@ impl World {
                 grown.push((pa.id, pa.messages_count as i64 - b as i64));
             }
         }
+        if !dups.is_empty() || self.cfg.dedup {
+            self.eval(if self.cfg.dedup { "C18:dedup-count" } else { "C18:dedup-off-stores-all" });
+        }
         // model: which messages are accepted (dedup drops repeats)
         let mut accepted: Vec<Rec> = vec![];
         let target: u32 = if balanced || key.is_some() {
@@ -794,22 +889,37 @@ impl World {
         };
         if self.cfg.dedup {
             let known: Vec<u128> = self.part(target).map(|p| p.msgs.iter().map(|r| r.id).collect()).unwrap_or_default();
+            let at_restart = self.len_at_restart.get(&target).copied();
             for r in recs {
-                if known.contains(&r.id) || accepted.iter().any(|a| a.id == r.id) {
+                if let Some(pos) = known.iter().position(|k| *k == r.id) {
                     self.event("dedup_dropped");
+                    self.event("dup_across_batches");
+                    if at_restart.map(|l| (pos as u64) < l).unwrap_or(false) {
+                        self.event("dup_across_restart");
+                        self.shape.push("dup_across_restart");
+                    }
+                    continue;
+                }
+                if accepted.iter().any(|a| a.id == r.id) {
+                    self.event("dedup_dropped");
+                    self.event("dup_within_batch");
+                    self.shape.push("dup_within_batch");
                     continue;
                 }
                 accepted.push(r);
             }
         } else {
+            if !dups.is_empty() {
+                self.event("dups_with_dedup_off");
+            }
             accepted = recs;
         }
         let exp_growth = accepted.len() as i64;
         let ok_growth = if exp_growth == 0 { grown.is_empty() } else { grown.len() == 1 && grown[0] == (target, exp_growth) };
         if !ok_growth {
             let w = json!({"grown": grown, "expected_partition": target, "expected_growth": exp_growth, "balanced": balanced, "key": key});
-            let prop = if self.cfg.dedup && !dups.is_empty() { "C18" } else { "C17" };
-            let clause = if prop == "C18" { "dedup-count" } else { "one-partition" };
+            let prop = if !dups.is_empty() || self.cfg.dedup { "C18" } else { "C17" };
+            let clause = if prop == "C18" { if self.cfg.dedup { "dedup-count" } else { "dedup-off-stores-all" } } else { "one-partition" };
             return Err(viol(prop, clause, "growth", self.witness(w)));
         }
         if self.part(target).is_none() {
@@ -855,6 +965,10 @@ impl World {
                 p.persisted = p.msgs.len() as u64;
                 p.unsaved = 0;
             }
+        }
+        if na > 0 && self.retention_active && self.part(target).map(|p| p.earliest > 0).unwrap_or(false) {
+            self.event("send_after_retention");
+            self.shape.push("send_after_retention");
         }
         if na > 0 {
             let (restarted, far) = {
@@ -936,6 +1050,9 @@ impl World {
             }
         };
         let ctx = json!({"poll": format!("{kind:?}"), "value": value, "count": count, "who": format!("{who:?}"), "got": Self::describe(&got.messages)});
+        if std::env::var("VERIF_TRACE").is_ok() {
+            eprintln!("[trace]    -> {ctx}  stored={stored:?}");
+        }
         if got.partition_id != part {
             let w = json!({"ctx": ctx, "reported_partition": got.partition_id, "asked": part});
             return Err(viol("C02", "slice", "wrong-partition", self.witness(w)));
@@ -977,7 +1094,14 @@ impl World {
         // below-earliest reads are judged by C14's lenient rule
         let below = matches!(kind, PollKind::Offset) && value < e || matches!(kind, PollKind::Next) && stored.map(|s| s + 1 < e).unwrap_or(false);
         if below && self.retention_active {
-            return crate::world_ext::check_below_earliest(self, part, &got, value, count, ctx).await;
+            crate::world_ext::check_below_earliest(self, part, &got, value, count, ctx).await?;
+            if commit && !got.messages.is_empty() {
+                let last = got.messages.last().unwrap().offset;
+                self.part_mut(part).offs.insert(who.canon(), last);
+                self.event("auto_commit");
+                self.verify_offsets(part, "after-auto-commit").await?;
+            }
+            return Ok(());
         }
         // coverage classes
         if !(empty || lo > hi) {
@@ -1187,6 +1311,13 @@ impl World {
         } else {
             self.event("nowait_restart_without_quiescence");
         }
+        if self.deep && !self.cfg.no_wait {
+            // sizes are compared across the restart: take the "before" figure after a save, because a
+            // buffered batch is accounted without its 24-byte header until it is written, and
+            // shutdown() itself performs that write
+            let r = timed("save_tick", self.inst.as_ref().unwrap().save_tick(false)).await?;
+            r.map_err(Stop::Inconclusive)?;
+        }
         let before = self.get_topic().await?;
         if mode == RestartMode::FlushAll {
             let ids: Vec<u32> = self.parts.iter().map(|p| p.id).collect();
@@ -1230,6 +1361,11 @@ impl World {
             p.unsaved = 0;
             p.restarted = true;
             p.first_after_restart = None;
+            self.len_at_restart.insert(p.id, p.msgs.len() as u64);
+        }
+        if self.retention_active && self.parts.iter().any(|p| p.earliest > 0) {
+            self.event("restart_after_retention");
+            self.shape.push("restart_after_retention");
         }
         self.rr_next = None; // the rotation cursor is not part of the durable state
         self.event(if mode == RestartMode::Shutdown { "restart_shutdown" } else { "restart_flush_all" });
@@ -1249,6 +1385,13 @@ impl World {
                 let mode = if self.cfg.no_wait { "nowait" } else { "wait" };
                 return Err(viol("C03", "restart-current-offset", mode, self.witness(w)));
             }
+            if self.deep && !self.cfg.no_wait {
+                self.eval("C16:restart-same-size");
+                if pa.size != pb.size {
+                    let w = json!({"partition": pb.id, "size_before": pb.size.as_bytes_u64(), "size_after": pa.size.as_bytes_u64()});
+                    return Err(viol("C16", "restart-same-size", "partition", self.witness(w)));
+                }
+            }
             self.eval("C16:restart-same-count");
             if pa.messages_count != pb.messages_count || pa.segments_count != pb.segments_count {
                 let w = json!({"partition": pb.id, "before": {"messages": pb.messages_count, "segments": pb.segments_count},
@@ -1261,6 +1404,26 @@ impl World {
         self.eval("C07:durable");
         self.verify_all_offsets("after-restart").await
     }
+}
+
+pub fn collect_files(dir: &std::path::Path, out: &mut Vec<PathBuf>) {
+    if let Ok(rd) = std::fs::read_dir(dir) {
+        for e in rd.flatten() {
+            let p = e.path();
+            if p.is_dir() {
+                collect_files(&p, out);
+            } else {
+                out.push(p);
+            }
+        }
+    }
+}
+
+pub fn find(hay: &[u8], needle: &[u8]) -> Option<usize> {
+    if needle.is_empty() || hay.len() < needle.len() {
+        return None;
+    }
+    hay.windows(needle.len()).position(|w| w == needle)
 }
 
 pub fn head(b: &[u8]) -> String {
